@@ -155,7 +155,13 @@ def discharge(th, obligations, second_backend=False, workers=None):
             jobs.append((pid, to_smt2(axioms, o.hyps + extra, g), second_backend))
     if not jobs:
         return
+    dump = os.environ.get('PYVC_DUMP')
+    texts = {j[0]: j[1] for j in jobs} if dump else {}
     for pid, results in _run(jobs, workers):
+        if dump and not any(r[1] == 'unsat' for r in results):
+            os.makedirs(dump, exist_ok=True)
+            with open(os.path.join(dump, pid.replace('/', '_').replace('#', '_') + '.smt2'), 'w') as fh:
+                fh.write(texts[pid])
         o = owner1[pid]
         o.trace.extend(results)
         o.seconds += min([r[2] for r in results if r[1] == 'unsat'] or [sum(r[2] for r in results[1:])])
